@@ -266,8 +266,7 @@ func (b *vhB02) build(depth, maxw int) (Stack, *vhR02) {
 			var t string
 			if b.symTxt > 0 {
 				b.symTxt--
-				t = verifString(g.next(3))
-				vhAssumeASCII(t)
+				t = verifString(g.next(3)) // any bytes: blank, tab, NUL, >= 0x80 ...
 			} else {
 				t = vhFixedTexts[g.next(len(vhFixedTexts))]
 			}
